@@ -2,6 +2,7 @@ mod engine;
 mod gen;
 mod props;
 mod refs;
+mod util;
 
 use std::path::PathBuf;
 
@@ -16,7 +17,12 @@ struct PropDef {
 }
 
 fn props() -> Vec<PropDef> {
-    vec![PropDef { id: "C04", level: "exploration", rule: props::c04::RULE, assumptions: props::c04::ASSUMPTIONS, run: props::c04::run }]
+    macro_rules! p {
+        ($id:literal, $m:ident, $lvl:literal) => {
+            PropDef { id: $id, level: $lvl, rule: props::$m::RULE, assumptions: props::$m::ASSUMPTIONS, run: props::$m::run }
+        };
+    }
+    vec![p!("C04", c04, "exploration"), p!("C06", c06, "exploration")]
 }
 
 fn usage() -> ! {
